@@ -268,13 +268,34 @@ func rulesTranslate(c *Ctx, r *Report, g *ssa.Global, codon map[[3]int64]int64) 
 	srcSl, _ := cp.Call.Args[1].(*ssa.Slice)
 	okSrc := false
 	var iphi *ssa.Phi
+	codonCounter := false // the loop counts codons (c = 0, 1, … < len(src)/3) and the position is 3*c
 	if srcSl != nil && s.expr(srcSl.X).String() == "P1" && srcSl.Low != nil && srcSl.High != nil {
 		iphi, _ = srcSl.Low.(*ssa.Phi)
 		d := linSub(linOf(s.expr(srcSl.High)), linOf(s.expr(srcSl.Low))).String()
+		if iphi == nil {
+			if mul, ok := srcSl.Low.(*ssa.BinOp); ok && mul.Op == token.MUL {
+				for _, pr := range [][2]ssa.Value{{mul.X, mul.Y}, {mul.Y, mul.X}} {
+					if ph, ok := pr[0].(*ssa.Phi); ok {
+						if k, ok := cInt(constVal(pr[1])); ok && k == 3 {
+							iphi, codonCounter = ph, true
+						}
+					}
+				}
+			}
+		}
 		okSrc = d == "3" && iphi != nil
 	}
 	if !r.check(okSrc, "VSA-TR", where, "codon source", c.pos(cp.Pos()), "each codon is src[i : i+3]", "the codon buffer is not filled from src[i : i+3]") {
 		return
+	}
+	if codonCounter {
+		// c = 0, 1, 2, … while c < len(src)/3, position 3*c: the same codons, while a whole codon fits
+		l, why := findCountedLoop(iphi)
+		bound := "?"
+		if why == "" {
+			bound = s.expr(l.bound).String()
+		}
+		r.check(why == "" && bound == "(builtin:len(P1) / 3)", "VSA-TR", where, "codon loop", c.pos(iphi.Pos()), "codon number c = 0, 1, 2, … while c < len(src)/3, read at position 3c: every codon once, in order", "codon loop is not a count of codons from 0 below len(src)/3 ("+why+", bound "+bound+")")
 	}
 	// i runs 0,3,6,.. < len(src)
 	okLoop := false
@@ -291,7 +312,9 @@ func rulesTranslate(c *Ctx, r *Report, g *ssa.Global, codon map[[3]int64]int64) 
 			bound = s.expr(b.Y).String()
 		}
 	}
-	r.check(okLoop && bound == "builtin:len(P1)", "VSA-TR", where, "codon loop", c.pos(iphi.Pos()), "i = 0, 3, 6, … while i < len(src): every codon once, in order", "codon loop is not `for i := 0; i < len(src); i += 3` (step ok: "+fmt.Sprint(okLoop)+", bound "+bound+")")
+	if !codonCounter {
+		r.check(okLoop && bound == "builtin:len(P1)", "VSA-TR", where, "codon loop", c.pos(iphi.Pos()), "i = 0, 3, 6, … while i < len(src): every codon once, in order", "codon loop is not `for i := 0; i < len(src); i += 3` (step ok: "+fmt.Sprint(okLoop)+", bound "+bound+")")
+	}
 	// length guard: len(src)%3 != 0 => panic, dominating the loop
 	okLen := false
 	var guardBlk *ssa.BasicBlock
@@ -725,6 +748,18 @@ func codonFoldTable(c *Ctx, fn *ssa.Function, bufVal ssa.Value) (T []int64, pos 
 		return nil, pos, "the case-fold loop does not cover exactly the 3 bytes of the codon", false
 	}
 	header := jphi.Block()
+	// the fold loop itself is not conditional on the codon: whether it runs must not depend on bytes of the buffer
+	// (a "fast path" that looks at some positions only skips the fold for codons whose lower case is elsewhere)
+	{
+		fs := newSymb(fn)
+		bufName := fs.expr(bufVal).String()
+		_, atoms := guardOfFull(fs, header, nil)
+		for _, at := range atoms {
+			if strings.Contains(at, bufName+"[") {
+				return nil, c.pos(header.Instrs[0].Pos()), "whether the case fold runs depends on bytes of the codon (" + at + "): codons whose lower-case bases are at other positions are not folded and panic as unknown", false
+			}
+		}
+	}
 	region := map[*ssa.BasicBlock]bool{}
 	var bodyEntry *ssa.BasicBlock
 	for b := range naturalLoop(header) {
